@@ -180,7 +180,7 @@ def slen(x):
 
 
 def _unshim(t):
-    m = {s_list: list, s_tuple: tuple, s_int: int, s_float: float, s_str: str}
+    m = {s_list: list, s_tuple: tuple, s_int: int, s_float: float, s_str: str, s_set: set}
     if _b.isinstance(t, tuple):
         return tuple(_unshim(u) for u in t)
     try:
@@ -229,9 +229,12 @@ def s_int(x=0):
         # condition (it would mix nonlinear reals into the index arithmetic); obligations that
         # need it take it from run.int_defs.
         run = engine()
-        if run.feasible((x < 0).z()):
-            raise Undecided("int() of a real that may be negative")
         k = sym.fresh_int("trunc")
+        if run.feasible((x < 0).z()) and bool(x < 0):
+            # negative argument: truncation toward zero is the ceiling
+            run.assume(k <= 0)
+            run.neg_int_defs = getattr(run, "neg_int_defs", []) + [(k, x)]
+            return k
         run.assume(k >= 0)
         run.int_defs.append((k, x))
         return k
@@ -307,6 +310,32 @@ def s_enumerate(x, start=0):
     return _b.enumerate(x, start)
 
 
+def s_sorted(x, key=None, reverse=False):
+    if isinstance(x, (SList, _OpaqueSeq)):
+        return _OpaqueSeq("sorted", x)
+    return _b.sorted(x, key=key, reverse=reverse)
+
+
+def s_set(x=()):
+    if isinstance(x, (SList, _OpaqueSeq)):
+        return _OpaqueSeq("set", x)
+    return _b.set(x)
+
+
+class _OpaqueSeq(SList):
+    """Result of sorted()/set() on a list of symbolic length: a sequence about which nothing is
+    known except what it was computed from (fresh length, fresh elements)."""
+
+    def __init__(self, op, src):
+        import z3
+        run = engine()
+        n = sym.fresh_int("len_" + op)
+        run.assume((n >= 0) & (n <= src.length))
+        f = z3.Function(run.fresh("el_" + op), z3.IntSort(), z3.IntSort())
+        SList.__init__(self, n, lambda k: Num(f(num(k).z())), name=op + "(" + str(getattr(src, "name", "")) + ")")
+        self.op, self.src = op, src
+
+
 def s_bool(x=False):
     return _b.bool(x)
 
@@ -315,5 +344,5 @@ def shim_builtins():
     d = dict(vars(_b))
     d.update({"len": slen, "isinstance": s_isinstance, "range": s_range, "int": s_int,
               "float": s_float, "max": s_max, "min": s_min, "str": s_str, "list": s_list,
-              "tuple": s_tuple, "sum": s_sum, "enumerate": s_enumerate})
+              "tuple": s_tuple, "sum": s_sum, "enumerate": s_enumerate, "sorted": s_sorted, "set": s_set})
     return d
